@@ -614,6 +614,52 @@ example : (coefAt [[3], [0], [0], [0]] 0 = normalizeInterCoef 64 4 4 0 (coefAt [
     (by intro l hl v hv; simp at hl; rcases hl with rfl | rfl <;> simp at hv <;> subst hv <;> norm_num) (by decide) 0 (by norm_num)
   ⟨h.1, h.2.2.1⟩
 
+/-- the NTT120 (`i128` accumulator) twin of `ep_result_coeff_same_radix` (`C08.big_normalize128_inter_value`, radix `b ≤ 63`) -/
+theorem ep_result_coeff_same_radix128 {b n rs : Nat} {H : Int} (hr : NormL.HeadRoom 128 b 0 H) (hb : b ≤ 63) (x C : Col)
+    (hx : ∀ l ∈ x, ∀ v ∈ l, |v| ≤ H) (h : epBigNormalize true n b rs x b = some C) (t : Nat) (ht : t < n) :
+    coefAt C t = normalizeInterCoef 128 b rs 0 (coefAt x t) ∧
+    (∀ d ∈ coefAt C t, NormL.Balanced b d) ∧
+    NormL.TorusNear (valI b (coefAt C t)) (b * rs) (valI b (coefAt x t)) (b * x.length) ∧
+    (b * x.length ≤ b * rs → NormL.TorusEq (valI b (coefAt C t)) (b * rs) (valI b (coefAt x t)) (b * x.length)) := by
+  have ha : ∀ i, ∀ v ∈ coefAt x i, |v| ≤ H := by
+    intro i v hv
+    unfold coefAt at hv
+    simp only [List.mem_map] at hv
+    obtain ⟨l, hl, rfl⟩ := hv
+    by_cases hlt : i < l.length
+    · have : l.getD i 0 ∈ l := by rw [List.getD_eq_getElem?_getD, List.getElem?_eq_getElem hlt]; exact List.getElem_mem _
+      exact hx l hl _ this
+    · have : l.getD i 0 = 0 := by rw [List.getD_eq_getElem?_getD, List.getElem?_eq_none (by omega)]; rfl
+      rw [this]; simp
+      exact hr.hH0
+  have hm : (List.range n).mapM (fun i => bigNormalizeCoef128 b rs 0 b (coefAt x i))
+      = some ((List.range n).map (fun i => normalizeInterCoef 128 b rs 0 (coefAt x i))) :=
+    mapM_some_of_forall _ _ _ (fun i _ => (C08.big_normalize128_inter_value hr hb rs 0 (coefAt x i) (ha i)).1)
+  have hC : C = ofCoefs rs ((List.range n).map (fun i => normalizeInterCoef 128 b rs 0 (coefAt x i))) := by
+    unfold epBigNormalize bigNormalizeCol128? mapCoefs? at h
+    simp only [if_true, hm, Option.map_some, Option.some.injEq] at h
+    exact h.symm
+  have hv := C08.normalize_inter_value hr rs 0 (coefAt x t) (ha t)
+  simp only [Int.toNat_zero, pow_zero, mul_one, neg_zero, Nat.add_zero] at hv
+  have hct : coefAt C t = normalizeInterCoef 128 b rs 0 (coefAt x t) := by
+    rw [hC, coefAt_ofCoefs rs _ t (by simpa using ht) (by simp [List.getD_eq_getElem?_getD, ht, hv.1])]
+    simp [List.getD_eq_getElem?_getD, ht]
+  have hlen : (coefAt x t).length = x.length := by simp [coefAt]
+  rw [hct]
+  refine ⟨rfl, hv.2.1, ?_, ?_⟩
+  · have := hv.2.2.1; rw [hlen] at this; exact this
+  · intro hle
+    have hcast : ((b * x.length : Nat) : Int) ≤ ((b * rs : Nat) : Int) := by exact_mod_cast hle
+    have := hv.2.2.2 (by rw [hlen]; linarith)
+    rw [hlen] at this; exact this
+
+example : (coefAt [[3], [0], [0], [0]] 0 = normalizeInterCoef 128 4 4 0 (coefAt [[3], [0], [0], [0]] 0)) ∧
+    NormL.TorusNear (valI 4 (coefAt [[3], [0], [0], [0]] 0)) (4 * 4) (valI 4 (coefAt [[3], [0], [0], [0]] 0)) (4 * 4) :=
+  let h := ep_result_coeff_same_radix128 (b := 4) (n := 1) (rs := 4) (H := 100)
+    ⟨by norm_num, by norm_num, by norm_num, by norm_num, by norm_num⟩ (by norm_num) [[3], [0], [0], [0]] [[3], [0], [0], [0]]
+    (by intro l hl v hv; simp at hl; rcases hl with rfl | rfl <;> simp at hv <;> subst hv <;> norm_num) (by decide) 0 (by norm_num)
+  ⟨h.1, h.2.2.1⟩
+
 /-- **`ep_result_phase_modulo_norm`** — the torus-wrap step of `glwe_external_product` (hence of every cell of the GGLWE / GGSW forms),
 same or different radices, modulo the value specification of the normalisation kernel: if for every column the C08 kernel relation
 `A·val(normalised column) = B·val(accumulator column) + E_i` holds (`C08.normalize_inter_value` / `big_normalize128_inter_value` for equal
